@@ -3,6 +3,7 @@ import KernDriver.C11
 import KernDriver.Pitch
 import KernDriver.Tokens
 import KernDriver.C18
+import KernDriver.Abstract
 namespace KD
 open Lean
 
@@ -10,6 +11,7 @@ def dispatch (j : Json) : Except String Json := do
   let op ← (← j.getObjVal? "op").getStr?
   if op.startsWith "c11." then KD.C11.handle op j
   else if op.startsWith "pitch." || op.startsWith "c16." || op.startsWith "c09." then KD.PitchOps.handle op j
+  else if op.startsWith "abs." || op.startsWith "tok." then KD.AbsOps.handle op j
   else if op.startsWith "c18." then KD.C18.handle op j
   else if op.startsWith "c10." then KD.GkernOps.handle op j
   else throw s!"unknown op {op}"
